@@ -133,3 +133,22 @@ func (b *VerifC13CB) Len() int {
 	defer b.cb.mu.RUnlock()
 	return len(b.cb.failures)
 }
+
+// VerifC13QueryServer runs the real Resolver.queryServer for ONE attempt of
+// req against addr (an authority address as the delegation cache spells it),
+// under ctx and with the request tree's work ledger (may be nil), and returns
+// what the attempt reported to the lookup loop (ok=false: nothing was sent to
+// it, as for an attempt whose context had already ended).
+func VerifC13QueryServer(r *Resolver, ctx context.Context, work *middleware.RecursionWorkLedger, req *dns.Msg, addr string) (resp *dns.Msg, err error, ok bool) {
+	server := authority.NewServer(addr, authority.IPv4)
+	rs := &resolveState{req: req, servers: &authority.Servers{Zone: ".", List: []*authority.Server{server}}, work: work}
+	results := make(chan lookupResult, 1)
+	r.maxConcurrent <- struct{}{} // the slot lookup acquires before launching the worker
+	r.queryServer(ctx, rs, nil, req.Id, acquireAttemptReq(req), server, results, false)
+	select {
+	case res := <-results:
+		return res.resp, res.err, true
+	default:
+		return nil, nil, false
+	}
+}
